@@ -232,7 +232,15 @@ impl Report {
             }
             map.insert("counters".into(), Value::Object(cmap));
             let samples = self.samples.lock().unwrap().clone();
-            if !map.contains_key("samples") {
+            let missing = match map.get("samples") {
+                Some(Value::Array(a)) => a.is_empty(),
+                _ => true,
+            };
+            if missing {
+                if samples.is_empty() {
+                    eprintln!("MACHINERY-FAILURE: the check recorded no sample of what it explored");
+                    return 2;
+                }
                 map.insert("samples".into(), Value::Array(samples));
             }
             let mut kf = serde_json::Map::new();
